@@ -395,7 +395,7 @@ CHECKS["C15"] = {
     "jobs": [{"bin": "c15_regions", "deadline": {"quick": 300, "thorough": 900}}],
     "rule": ("int regions R1, R2 (copy of R1), reference region RR, references p, q (into R1/R2) and r (into RR), scalars x, y, boolean b1; alphabet "
              "of 16 core operations (ref_make at two allocation sites into the same region, stores of constants and variables through p and q, "
-             "loads, ref_gep with offset 0 (alias) and 4 (next cell of the same object), assume p==q / p!=q / p!=null, x:=x+1, save / join / "
+             "loads, ref_gep with offset 0 (alias), 4 (next cell of the same object) and y (a variable that is 0 in one witness, 4 in the other and unknown to the domain), assume p==q / p!=q / p!=null, x:=x+1, save / join / "
              "widening with the saved state) + 17 extended ones (references stored in and loaded from RR, region_copy and accesses to the copy, "
              "ref_free, assume p==null, select_ref with null, a third allocation site, meet, swap). All histories of depth <=4 core / <=3 "
              "everything (5 / 4 thorough), from the state after region_init(R1), region_init(RR), region_init(RB) and (depth <=3) from top without "
